@@ -31,6 +31,7 @@ EXPLANATION += ' Added after the seeded-change rounds: ' + 'D8: nothing that may
 EXPLANATION += ' Added in the third session (round-3 seeds and the findings they led to): ' + "D10: pipeline token ownership - a filter never destroys its input token on its exceptional path, destroys it exactly once on the normal path, the task replaces the handed token by the filter's result, the pipeline teardown finalises items still parked in a serial filter's buffer; D11: an object created and deleted by the same function is also destroyed when a call in between throws (violated by parallel_scan: known finding)."
 EXPLANATION += ' Added in the fourth round of seeded changes: ' + "D5 now decided by exit_coverage (any recognised scope-exit form); D12: after a task has destroyed itself nothing that can raise a user exception runs in the same call, and a tree fold whose join can throw gives the node its reference back on the exceptional path; D13: a wait reference reserved by a base-class constructor is released by its destructor when a derived constructor can throw, and small_object_allocator::new_object returns the storage when the constructor throws; D4 also: an object kept in single-slot raw storage (aligned_space<T>) is destroyed by its owner's destructor only if every constructor constructs it or a member flag that is raised somewhere guards the call."
 EXPLANATION += ' Added in the fifth round: ' + 'D4 also: the lazily split body of parallel_reduce - wherever it is constructed - is announced by has_right_zombie on every path after the construction and never before it; D11 also: a scope-exit handler deletes a self-deleting task object that escapes inside the region it covers only under a guard.'
+EXPLANATION += ' Added in the sixth (partial) seeding round: ' + 'D2 also (shared with C04-D3): when a cancellation is propagated the climb through a context\'s parent chain ends only at the cancelled source or at the root - every other edge out of that loop is dominated by the ancestor == &src edge.'
 ASSUMPTIONS = ['the try_call/raii_guard idiom behaves as its definition in _template_helpers.h (checked structurally in D5)',
                'task classes not instantiated by the drivers are not analysed']
 ND = ['"one that was actually thrown" under all throw positions', 'timing of bodies vs. the rethrow',
@@ -86,6 +87,9 @@ def run(facts, rep):
     d13_constructor_reservations(facts, rep)
     d13_storage_of_failed_constructions(facts, rep)
     idiom(facts, rep)
+    # "cancels the rest of that group": nested groups two or more levels down are reached (shared with C04-D3)
+    from rules.C04 import d3_ancestor_walk_is_complete
+    d3_ancestor_walk_is_complete(facts, rep, clause='D2')
 
 
 def catch_blocks(fn):
